@@ -1,16 +1,16 @@
 """C12 — compiled control pulses are exactly the scheduled instruction waveforms.
 
-Correspondence of lean/QipVerif/Model/Concat.lean with GateCompiler.compile /
-_schedule / _process_gate_pulse / _process_idling_tlist / _concatenate_pulses, plus the
-property itself evaluated on the real code (oracle), written independently of the model.
-
-Exactness: every time fed to the code on the *dyadic stream* is a multiple of 2^-30 below
-2^22, so every float addition/subtraction/multiplication by 3 of the code is exact and the
-model's rationals must be reproduced bit for bit.  The only inexact operations are
-`step_size * 1.0e-6` (1e-6 is not dyadic), `step_size / 5` and `np.linspace`: cases in which
-a tolerance comparison changes when tau is moved by a factor 1 +- 2^-20 are skipped
-(counted, tag `tight-skipped`), and idle points of continuous pulses are compared to 2^-46
-relative instead of exactly.
+* `read_source` / `render_gen`: the description of GateCompiler._process_gate_pulse / _process_idling_tlist /
+  _concatenate_pulses / compile read from the working tree with `ast` and written to lean/QipVerif/Gen/ConcatSrc.lean
+  (tolerance constants, comparison operators, operands of the idle test, np.linspace / np.arange end points and counts,
+  slices and indices, reference of time_tol, step size used by the padding).  The driver runs the model on that description.
+* correspondence of that model with the real functions, exact on the *dyadic stream*: every time is a multiple of 2^-30
+  below 2^23, so every float addition / subtraction / multiplication by 3 of the code is exact and the model's rationals
+  must be reproduced bit for bit.  Inexact operations: the tolerance products (`min_step_size * 1e-6`, `1e-12 * T`),
+  `step_size / 5` and `np.linspace`: cases in which a tolerance comparison changes when the constants are scaled by
+  1 +- 2^-20 are skipped (counted, tag `tight-skipped`); idle points of continuous pulses are compared to 2^-46 relative.
+* the property itself evaluated on the real code (oracle), written independently of the model and of the description,
+  on dyadic schedules, on schedules with non-dyadic durations (the Scheduler's sums round) and on the shipped compilers.
 """
 import ast, os, time, itertools
 from fractions import Fraction as F
@@ -949,14 +949,14 @@ def check_channel(ws, grid, coeff, res):
     return None
 
 
-def judge(chans, got, full=False):
+def judge(chans, got, full=False, strict=False):
     """chans: label -> windows, got: label -> (grid, coeffs) or (None, None).  -> (fails, detail)"""
     empty = sorted(lab for lab, ws in chans.items() if not ws)
     chans = {lab: ws for lab, ws in chans.items() if ws}
     ok, why = hypothesis(chans, full)
     if not ok:
         return False, "not judged: " + why
-    res = RES * total_time(chans)
+    res = F(0) if strict else RES * total_time(chans)     # "strict": the witness of the resolution finding, judged without the class
     for lab, ws in chans.items():
         if lab not in got or got[lab][0] is None:
             return True, f"channel {lab} is used by the schedule but not compiled"
@@ -1210,16 +1210,27 @@ class C12(PropertyCheck):
         self.desc = None
 
     def regenerate(self, ctx):
-        self.desc = None
-        self.desc = read_source()
-        ctx.log(f"source of {paths.REPO}: {describe(self.desc)}")
         gen = os.path.join(paths.LEAN, "QipVerif", "Gen", "ConcatSrc.lean")
-        text = render_gen(self.desc)
-        if not os.path.exists(gen) or open(gen).read() != text:
-            with open(gen, "w") as f:
-                f.write(text)
-            return [gen]
-        return []
+
+        def put(desc):
+            text = render_gen(desc)
+            if not os.path.exists(gen) or open(gen).read() != text:
+                with open(gen, "w") as f:
+                    f.write(text)
+                return [gen]
+            return []
+
+        self.desc = None
+        try:
+            self.desc = read_source()
+        except TranslatorError:
+            # the source is not of a recognised shape: the model falls back to the shape the theorems are about (never to a
+            # stale description), the correspondence then shows where the code differs
+            self.desc = standard_desc()
+            put(self.desc)
+            raise
+        ctx.log(f"source of {paths.REPO}: {describe(self.desc)}")
+        return put(self.desc)
 
     def _desc(self):
         if self.desc is None:
@@ -1537,7 +1548,7 @@ class C12(PropertyCheck):
                 return False, "not judged: " + why
             if st != "ok":
                 return True, f"compile raised {payload} for a valid schedule"
-            return judge(chans, {lab: (tl, cf) for lab, tl, cf in payload}, full)
+            return judge(chans, {lab: (tl, cf) for lab, tl, cf in payload}, full, bool(w.get("strict")))
         if w["kind"] == "direct":
             inp = w["input"]
             chans = {i: [window(s, tl, cf) for s, tl, cf in ws if not (tl[0] == "s" and F(tl[1]) == 0)]
@@ -1552,7 +1563,7 @@ class C12(PropertyCheck):
             st, payload = self._run_direct_impl(inp)
             if st != "ok":
                 return True, f"_concatenate_pulses raised {payload} for a valid schedule"
-            return judge(chans, {i: (tl, cf) for i, tl, cf in payload}, full)
+            return judge(chans, {i: (tl, cf) for i, tl, cf in payload}, full, bool(w.get("strict")))
         if w["kind"] == "shipped":
             case = w["case"]
             instrs = shipped_instructions(case)
